@@ -184,8 +184,36 @@ def r2(ctx, tog):
 
 
 def flatten_xor(e):
+    """xor normal form: list of terms; a term folded on some branches only becomes ('when', cond, 0, present_iff_eq0, term)
+    (conditions here are two-valued: Option / Color discriminants and booleans, so `== 1` is written `!= 0`)."""
     if e[0] == 'bin' and e[1] == 'BitXor':
         return flatten_xor(e[2]) + flatten_xor(e[3])
+    if e[0] == 'int' and e[1] == 0:
+        return []
+    if e[0] == 'ite' and len(e[2]) == 2:
+        cond = e[1]
+        (v0, e0), (v1, e1) = e[2]
+        t0, t1 = flatten_xor(e0), flatten_xor(e1)
+        common = []
+        r1 = list(t1)
+        r0 = []
+        for x in t0:
+            if x in r1:
+                r1.remove(x)
+                common.append(x)
+            else:
+                r0.append(x)
+
+        def when(v, other, x):
+            # present iff cond == v   (v may be 'otherwise' = "not `other`")
+            if v == 'otherwise':
+                val, pos = other, False
+            else:
+                val, pos = v, True
+            if val == 1:
+                val, pos = 0, not pos
+            return ('when', cond, val, pos, x)
+        return common + [when(v0, v1, x) for x in r0] + [when(v1, v0, x) for x in r1]
     return [e]
 
 
@@ -225,7 +253,13 @@ def r3(ctx, rule='C08.R3'):
         m = take(lambda x: match(('index', ('index', ('constdef', Z + 'ZOBRIST_CASTLES', ANY), cidx(V('c'))),
                                   cidx(('index', ('field', SELF, 'castle_rights'), cidx(V('c'))))), x))
         if m is None:
-            break
+            # constant colour folded to its index: ZOBRIST_CASTLES[i][rights[i]]
+            m = take(lambda x: match(('index', ('index', ('constdef', Z + 'ZOBRIST_CASTLES', ANY), ('int', V('i'), 'usize')),
+                                      cidx(('index', ('field', SELF, 'castle_rights'), ('int', V('i'), 'usize')))), x))
+            if m is None:
+                break
+            cols.append(ENUM('color::Color', 'White' if m['i'] == 0 else 'Black'))
+            continue
         cols.append(m['c'])
     W, B = ENUM('color::Color', 'White'), ENUM('color::Color', 'Black')
     def kind(c):
@@ -247,21 +281,31 @@ def r3(ctx, rule='C08.R3'):
     # en passant: key iff Some, file of the stored square
     epsq = ('field', ('variant', ('field', SELF, 'en_passant'), 'Some'), '0')
     fidx = ('cast', ('discr', call(GETFILE, epsq)), 'usize')
-    m = take(lambda x: match(('ite', ('discr', ('field', SELF, 'en_passant')),
-                              ((1, ('index', ('index', ('constdef', Z + 'ZOBRIST_EP', ANY), cidx(V('c'))), fidx)),
-                               ('otherwise', ('int', 0, 'u64')))), x))
+    def ep_term(x):
+        if x[0] == 'when' and x[1] == ('discr', ('field', SELF, 'en_passant')) and x[2] == 0 and x[3] is False:     # present iff Some
+            return match(('index', ('index', ('constdef', Z + 'ZOBRIST_EP', ANY), cidx(V('c'))), fidx), x[4])
+        return None
+    m = take(ep_term)
     if m is not None and kind(m['c']) in ('stm', 'opp'):
         ctx.ok(R, 'en-passant key of (file of the stored square, %s) iff the option is Some' % sh(m['c'], 60), w)
     else:
         ctx.violation(R, key + ':ep', 'en-passant state is not folded as "key(file, colour) iff Some"', w)
     # side key for exactly one side
     def side_term(x):
-        for bval, on_true in ((1, True), (0, False)):
-            cond = ('bin', 'Eq', ('discr', STM), ('int', bval, 'isize'))
-            for a, b_ in (((0, ('int', 0, 'u64')), ('otherwise', V('k'))), ((0, V('k')), ('otherwise', ('int', 0, 'u64')))):
-                mm = match(('ite', cond, (a, b_)), x)
-                if mm is not None:
-                    return mm
+        if x[0] != 'when':
+            return None
+        cond, val, pos, term = x[1:]
+        present = []
+        for colour in (0, 1):
+            if cond == ('discr', STM):
+                cv = colour
+            elif cond[0] == 'bin' and cond[1] in ('Eq', 'Ne') and cond[2] == ('discr', STM) and cond[3][0] == 'int':
+                cv = int((colour == cond[3][1]) == (cond[1] == 'Eq'))
+            else:
+                return None
+            present.append((cv == val) == pos)
+        if sum(present) == 1:
+            return {'k': term}
         return None
     m = take(side_term)
     if m is not None and m['k'][0] == 'int' and m['k'][1] == side and side:
